@@ -520,7 +520,7 @@ def all_obligations():
              functions=['struct position encoding'], expect=['position order is the order'], replayable=True))
         A(Ob(name=f'expand.bits_init.{gran}', props=['C09'], kind='proof', harness='h_expand.c', entry='h_bits_init', defines=gd,
              what='bits_init(offset): position of bit 32*offset', functions=['bits_init'], expect=['bits_init\\(offset\\)'], replayable=True))
-        A(Ob(name=f'expand.attach_detach.{gran}', props=['C09', 'C10', 'C08'], kind='bounded', harness='h_expand.c', entry='h_attach_detach', defines=gd,
+        A(Ob(name=f'expand.attach_detach.{gran}', props=['C09', 'C10', 'C08', 'C12'], kind='bounded', harness='h_expand.c', entry='h_attach_detach', defines=gd,
              bound='input_q holds <= 2 blocks (attach() walks it); block sizes, offsets, buffered bits, words consumed symbolic',
              what='attach() finds the block containing the word offset and delimits its unread words; detach() returns exactly the absolute bit position where the reader '
                   'stopped and its canonical position, independent of block boundaries',
